@@ -35,11 +35,19 @@ def seeded():
 
 
 def status():
+    man = {c["property_id"]: c for c in json.load(open(os.path.join(V, "MANIFEST.json")))["checks"]}
     out = ["| property | obligations (theorems) | discharged | K/S cases (last quick run) | distinct non-trivial | wall s |", "|---|---|---|---|---|---|"]
+    detail = []
     for p in sorted(glob.glob(os.path.join(V, "evidence", "C*.json"))):
         e = json.load(open(p)); c = e["coverage"]
-        out.append("| %s | %s | %s | %s | %s | %s |" % (e["property_id"], c.get("obligations"), c.get("discharged"), c.get("evaluations"), c.get("distinct_nontrivial"), e.get("wall_s")))
-    return "\n".join(out)
+        pid = e["property_id"]
+        out.append("| %s | %s | %s | %s | %s | %s |" % (pid, c.get("obligations"), c.get("discharged"), c.get("evaluations"), c.get("distinct_nontrivial"), e.get("wall_s")))
+        names = [t.split(".")[-1] for t in c.get("theorems", [])]
+        partial = [n for n in names if n.endswith("_partial")]
+        detail.append("* **%s** — technique: %s. Theorems (%d): %s.%s" % (
+            pid, man.get(pid, {}).get("technique", "?"), len(names), ", ".join("`%s`" % n for n in names),
+            (" Partial (statement weaker than the property; see MANIFEST level_claimed/level_note for what is missing): " + ", ".join("`%s`" % n for n in partial) + ".") if partial else ""))
+    return "\n".join(out) + "\n\n" + "\n".join(detail)
 
 
 def main():
